@@ -74,6 +74,12 @@ func (m c18) Run(ctx *core.Ctx) {
 func (c18) Exec(ctx *core.Ctx, cs *core.Case) {
 	p := buildParser(cs.Config)
 	a, b := string(cs.Input), string(cs.Alt)
+	switch len(a) % 6 {
+	case 1:
+		interfere(ctx, a)
+	case 2:
+		sameParserHistory(ctx, p, a) // the profile has just seen a's raw host text in a non-special URL
+	}
 	ca, oka, pa := canonParse(ctx, p, a)
 	cb, okb, pb := canonParse(ctx, p, b)
 	if pa != nil || pb != nil {
